@@ -135,6 +135,14 @@ def check_one(case, ctx, children=None):
               lib.size_bucket(k)])
 
     # (a) todict against the reference encoding
+    first = ctx.call('todict', q, context.todict, dump_ignore)
+    # the returned dict belongs to the caller: wreck it in place, then dump again (nothing may be shared)
+    for key in ('context', 'lattice'):
+        if isinstance(first.get(key), list):
+            first[key].reverse()
+            if first[key]:
+                first[key].pop()
+    first['objects'] = ()
     d = ctx.call('todict', q, context.todict, dump_ignore)
     want = lib.reference_dict(case, with_lattice=stored)
     ctx.check(lib.listify(d) == want, 'todict', q, lambda: 'todict() differs from the reference encoding: '
